@@ -2154,8 +2154,10 @@ def remove_dead_ifs(source: str) -> str:
                 # We skip adding it to ifs, so that will be the result.
 
             if any_if_always_false:
+                # No element gets past this generator, whatever the other generators are
                 any_comprehension_modified = True
-                continue
+                generators = None
+                break
 
             if len(ifs) < len(comprehension.ifs):
                 replacement = ast.comprehension(
@@ -2176,8 +2178,14 @@ def remove_dead_ifs(source: str) -> str:
             yield (node, type(node)(**{**node.__dict__, "generators": generators}))
             continue
 
-        # If all generators are dead, replace the comprehension with an empty container
-        # of the same type.
+        # If a generator is dead, replace the comprehension with an empty container of the same
+        # type, unless what it iterates over still has to be evaluated for its effects.
+        safe_callables = parsing.safe_callable_names(root)
+        if any(
+            core.has_side_effect(comprehension.iter, safe_callables)
+            for comprehension in node.generators
+        ):
+            continue
 
         if isinstance(node, ast.ListComp):
             yield (node, ast.List(elts=[]))
